@@ -65,6 +65,7 @@ func c14Requests(sec *ref.PMTSection, pmtPID int, full bool) [][]int {
 		}
 	}
 	out = append(out,
+		nil, // the empty list as a nil slice (the subsets above produce it as an empty non-nil one)
 		[]int{c14Absent[0], c14Absent[1]},
 		[]int{c14Absent[2], c14Absent[2]},
 		[]int{0},
